@@ -1,60 +1,51 @@
 //go:build verif
 
+// Command zzprobe is a scratch probe (not part of any check): a one-node cluster fed raw byte strings.
 package main
 
 import (
 	"fmt"
 	"net"
 	"os"
-	"os/exec"
-	"strings"
+	"strconv"
 	"time"
 
 	"rgverif/internal/cluster"
 )
 
 func main() {
-	dir := "/dev/shm/zzprobe"
+	dir := "/dev/shm/zzprobe-dir"
 	os.RemoveAll(dir)
-	c, err := cluster.New(dir, 3, false, nil)
+	c, err := cluster.New(dir, 1, false, nil)
 	if err != nil {
 		panic(err)
 	}
 	defer c.Stop()
+	defer os.RemoveAll(dir)
 	if err := c.StartAll(); err != nil {
 		panic(err)
 	}
 	fmt.Println("writable", c.WaitAllWritable(90*time.Second))
-	for round := 0; round < 6; round++ {
-		for id := 1; id <= 3; id++ {
-			nd := c.Nodes[id-1]
-			c.Kill(id)
-			t0 := time.Now()
-			for _, port := range []int{nd.Port, nd.RaftPort} {
-				for k := 0; k < 200; k++ {
-					l, err := net.Listen("tcp", fmt.Sprintf("127.0.0.1:%d", port))
-					if err == nil {
-						l.Close()
-						if k > 0 {
-							fmt.Printf("node %d port %d (raft=%v) free after %v (%d tries)\n", id, port, port == nd.RaftPort, time.Since(t0), k)
-						}
-						break
-					}
-					if k == 0 {
-						out, _ := exec.Command("ss", "-tanpH").Output()
-						for _, ln := range strings.Split(string(out), "\n") {
-							if strings.Contains(ln, fmt.Sprintf(":%d", port)) {
-								fmt.Println("   ", ln)
-							}
-						}
-					}
-					time.Sleep(5 * time.Millisecond)
-				}
-			}
-			if err := c.StartNode(id); err != nil {
-				fmt.Println("start", id, err)
-			}
-			time.Sleep(1500 * time.Millisecond)
+	for _, raw := range os.Args[1:] {
+		s, err := strconv.Unquote(`"` + raw + `"`)
+		if err != nil {
+			fmt.Println("bad arg", raw, err)
+			continue
 		}
+		conn, err := net.DialTimeout("tcp", c.Nodes[0].Addr(), 5*time.Second)
+		if err != nil {
+			fmt.Println("dial:", err, "alive:", c.Alive())
+			fmt.Println(c.CrashLines()); for _, l := range c.Grep(1, []string{"panic", "fatal", "runtime error", "goroutine ", "server/", "logger"}, 300, 40) { fmt.Println(l) }
+			return
+		}
+		conn.Write([]byte(s))
+		conn.SetReadDeadline(time.Now().Add(3 * time.Second))
+		buf := make([]byte, 4096)
+		n, err := conn.Read(buf)
+		fmt.Printf("%q -> %q err=%v alive=%v\n", s, buf[:n], err, c.Alive())
+		conn.Close()
+	}
+	if len(c.Alive()) == 0 {
+		fmt.Println(c.NodeLog(1, 40))
 	}
 }
